@@ -20,6 +20,28 @@ theorem intern_table_methods_are_the_modelled_ones :
     Gen.internMethods = ["string_store::ObjStringStore::new", "string_store::ObjStringStore::get",
       "string_store::ObjStringStore::insert", "string_store::ObjStringStore::adjust_capacity"] := by rfl
 
+/-- The glue between the table and the rest of the interpreter, statement by statement as written on this run: hash the bytes (FNV, tied by
+`fnv_write_tie`), look `(hash, bytes)` up, on a hit return the entry that is there, on a miss build the string object WITH THAT HASH and
+insert it, return it.  There is no other path: no length or size test, no second place where a string is kept.  (The hook
+`verif::StringStore::intern` that the table correspondence drives is these statements with the hash supplied by the caller.) -/
+theorem string_creation_is_lookup_then_insert :
+    Gen.internGlue =
+    [ "fn new_gc_obj_string (& mut self , data : & str) -> Gc < ObjString >"
+    , "let hash = { let mut hasher = FnvHasher :: new () ; (* data) . hash (& mut hasher) ; hasher . finish () } ;"
+    , "let key = (hash , data) ;"
+    , "if let Some (string) = self . string_store . get (key) { return string . as_gc () ; }"
+    , "let string = Root :: new (ObjString :: new (self . string_class . as_ref () . expect (\"Expected Root.\") . as_gc () , data , hash ,)) ;"
+    , "let ret = string . as_gc () ;"
+    , "self . string_store . insert (string) ;"
+    , "ret"
+    ] := by rfl
+
+/-- … and string objects are built nowhere else. -/
+theorem string_objects_are_built_only_there : Gen.objStringCtors = [("vm.rs", "Vm::new_gc_obj_string")] := by rfl
+
+#print axioms string_creation_is_lookup_then_insert
+#print axioms string_objects_are_built_only_there
+
 #print axioms intern_table_is_only_looked_up_and_inserted_into
 #print axioms intern_table_methods_are_the_modelled_ones
 
